@@ -125,6 +125,13 @@ def run(ctx):
                 b[rnd.randrange(4)] = rnd.randrange(4)
             pairs.append((a, b))
         nlong = 2000
+    # boundary values of std::size_t in every position of short sequences (always run)
+    MAXV = 2 ** 64 - 1
+    for pool in ([MAXV, 1], [MAXV, MAXV, 3], [0, MAXV, MAXV - 1], [MAXV - 1, MAXV, 0, MAXV], [2 ** 63, 2 ** 63 - 1, 2 ** 32, 2 ** 32 - 1]):
+        for perm in itertools.permutations(pool):
+            sorts.append(list(perm))
+            pairs.append((list(pool), list(perm)))
+        pairs.append((list(pool), list(pool[:-1]) + [pool[0]]))
     for _ in range(nlong):
         n = rnd.randrange(5, 24)
         a = [rnd.choice([rnd.randrange(0, 6), rnd.getrandbits(64), 2 ** 64 - 1, rnd.randrange(0, 1000)]) for _ in range(n)]
